@@ -4,6 +4,7 @@ import re
 import z3
 from values import *
 from interp import bool_s, mk_int, concrete_int, last_type_name
+from models_core import NONE as NONE_
 from models_core import some, NONE, opt_sym, ok, err, deref_all, variant_of
 
 
@@ -158,6 +159,8 @@ def install(ctx):
     @M.reg('Weak::upgrade')
     def weak_upgrade(ip, pc, args, dt):
         w = read_loc(args[0].loc)
+        if isinstance(w.arc, ArcCell) and getattr(w.arc.cell, 'dropped', False):
+            return NONE_            # every strong handle to this heap object is gone (a history obligation said so)
         return opt_sym(w.alive, w.arc)
 
     @M.reg('Arc::ptr_eq', 'Rc::ptr_eq', 'Weak::ptr_eq')
